@@ -17,7 +17,7 @@
       hnsw_old_order_no_inlinks     the statement order before fix fb5d06f loses every in-link (D1, fixed)
   What holds is proved under explicit decidable hypotheses (`…_partial`).
 -/
-import CometProofs.HNSW
+import CometProofs.HNSWState
 namespace Comet.HNSW
 
 variable {V S : Type}
@@ -37,6 +37,69 @@ theorem reachSet_correct (succ : Id → List Id) (fuel : Nat) (e : Id) (r : List
     induction hv with
     | refl => exact h4 e (by simp)
     | step _ hw ih => exact h2 _ ih _ hw
+
+/-! ## searchLayer (the graph search shared by insertion and query) -/
+
+/-- **searchLayer_spec, soundness.** Whatever `searchLayer` returns are distinct, resident,
+    non-deleted vertices that are reachable from the given entry point through non-deleted
+    vertices of that layer (`liveSuccAt`), each carrying its distance to the query. -/
+theorem searchLayer_spec_sound (m : Metric V S) (s : State V) (q : V) (ep : Id) (ef layer : Nat)
+    (res : List (Hit S)) (h : searchLayer m s q ep ef layer = .ok res) :
+    (∀ r ∈ res, Reach (liveSuccAt s layer) ep r.id ∧ isDeleted s r.id = false ∧
+      ∃ n, s.nodes.get? r.id = some n ∧ r.score = m.dist q n.vec) ∧
+    (res.map (·.id)).Nodup :=
+  searchLayer_sound m s q ef layer ep res h
+
+/-- **searchLayer_spec, completeness.** If `ef` is at least the number of vertices reachable
+    from a non-deleted entry point through non-deleted vertices of the layer (`U`: any list
+    that covers them), ALL of them are returned: the early exit, the admission test and the
+    eviction never lose one. -/
+theorem searchLayer_spec_complete (m : Metric V S) (s : State V) (q : V) (ep : Id) (ef layer : Nat)
+    (U : List Id) (hU : ∀ v, Reach (liveSuccAt s layer) ep v → v ∈ U) (hlen : U.length ≤ ef)
+    (hep : isDeleted s ep = false) (res : List (Hit S))
+    (h : searchLayer m s q ep ef layer = .ok res) :
+    ∀ v, Reach (liveSuccAt s layer) ep v → v ∈ res.map (·.id) :=
+  searchLayer_complete m s q ef layer ep U hU hlen hep res h
+
+/-- a soft-deleted entry point yields nothing at all (the mechanism of D2) -/
+theorem searchLayer_deleted_entry (m : Metric V S) (s : State V) (q : V) (ep : Id) (ef layer : Nat)
+    (hep : isDeleted s ep = true) : searchLayer m s q ep ef layer = .ok [] := by
+  simp [searchLayer, hep]
+
+/-! ## what holds: the three clauses on a state whose entry point is live and whose
+    bottom layer is complete on the live vertices (decidable hypotheses `liveB`,
+    `complete0B`; the correspondence run checks `complete0B` on the exported graph of
+    every case that stays in the regime "entry point never soft-deleted, never more than
+    2M+1 vertices, efConstruction never below the size") -/
+
+/-- **Clause 1, partial** (hypothesis: the entry point is resident and not soft-deleted —
+    the negation is the trigger of D2): every completed unrestricted search is non-empty,
+    for every `k ∈ ℤ` and every `ef`. -/
+theorem hnsw_nonempty_partial (m : Metric V S) (ord : m.sc.Ordered) (s : State V)
+    (hentry : liveB s s.entry = true) (hml : s.maxLevel ≠ -1)
+    (q q' : V) (k ef : Int) (hq : m.dimOf q = s.dim) (hpre : m.pre q = some q')
+    (res : List (Hit S)) (h : searchSingle m s q k m.sc.zero [] ef = .ok (.ok res)) :
+    res ≠ [] :=
+  search_nonempty_state m ord s (liveB_iff.1 hentry) hml q q' k ef hq hpre res h
+
+/-- **Clause 2, partial**: entry point live, layer 0 complete on the live vertices, `ef` at
+    least their number ⇒ every completed search (any `k ∈ ℤ`, threshold, id restriction)
+    is an exact top-k of the live vertices, scored by the metric. -/
+theorem hnsw_small_exact_partial (m : Metric V S) (ord : m.sc.Ordered) (s : State V)
+    (hcomp : complete0B s = true) (hentry : liveB s s.entry = true) (hml : s.maxLevel ≠ -1)
+    (q q' : V) (k : Int) (thr : S) (F : List Id) (ef : Int)
+    (hq : m.dimOf q = s.dim) (hpre : m.pre q = some q')
+    (hef : (liveIds s).length ≤ efUsed s ef) (res : List (Hit S))
+    (h : searchSingle m s q k thr F ef = .ok (.ok res)) :
+    IsTopK m.sc.le k (Flat.cands m (stateLive s) q' thr F) res :=
+  search_exact_state m ord s (complete0B_spec hcomp).1 (complete0B_spec hcomp).2
+    (liveB_iff.1 hentry) hml q q' k thr F ef hq hpre hef res h
+
+/-- **Clause 3, partial**: entry point live and layer 0 complete ⇒ every live vertex is
+    reachable from the entry point through live vertices of the bottom layer. -/
+theorem hnsw_reachable_small (s : State V)
+    (hcomp : complete0B s = true) (hentry : liveB s s.entry = true) : Reachable s :=
+  reachable_state s (complete0B_spec hcomp).1 (liveB_iff.1 hentry)
 
 /-! ## the full statements (kept visible; the first and third are FALSE for the code) -/
 
@@ -225,5 +288,26 @@ example : freshAdds opsD2 = true ∧ validPicks toy pD2.init opsD2 = true ∧
     liveSpec toy 1 opsD2 = [(2, 1), (3, 2)] := by decide +kernel
 example : freshAdds opsD21 = true ∧ validPicks toy pD21.init opsD21 = true ∧
     liveSpec toy 1 opsD21 = [(1, 0), (4, 3)] := by decide +kernel
+
+/-! ### non-vacuity of the partial theorems: a history with removals, a flush and levels > 0
+    whose final state satisfies every hypothesis -/
+
+def opsOK : List (Op Int) :=
+  [.add 1 0 1, .add 2 10 0, .add 3 20 2, .add 4 30 0, .remove 2, .add 5 40 1, .flush 1, .add 6 25 0]
+
+def stOK : State Int := match run toy pD2.init opsOK with | .ok s => s | .error _ => pD2.init
+
+example : complete0B stOK = true ∧ liveB stOK stOK.entry = true ∧ stOK.maxLevel = 2 ∧
+    liveIds stOK = [1, 3, 4, 5, 6] ∧ validPicks toy pD2.init opsOK = true ∧ freshAdds opsOK = true := by
+  decide +kernel
+-- the hypotheses of all three partial theorems hold of it:
+example : Reachable stOK := hnsw_reachable_small stOK (by decide +kernel) (by decide +kernel)
+example : ∀ res, searchSingle toy stOK 24 2 0 [] 0 = .ok (.ok res) →
+    IsTopK toy.sc.le 2 (Flat.cands toy (stateLive stOK) 24 0 []) res :=
+  fun res h => hnsw_small_exact_partial toy toy_ordered stOK (by decide +kernel) (by decide +kernel)
+    (by decide +kernel) 24 24 2 0 [] 0 (by decide +kernel) rfl (by decide +kernel) res h
+-- … and the search does complete, with the two nearest live points 25 (id 6) and 20 (id 3):
+example : (match searchSingle toy stOK 24 2 0 [] 0 with
+    | .ok (.ok r) => r.map (fun (h : Hit Nat) => (h.id, h.score)) | _ => []) = [(6, 1), (3, 4)] := by decide +kernel
 
 end Comet.HNSW
